@@ -49,7 +49,7 @@ CLAIMED.update({
             "Exploration: op x 1-4 numbers from a pool with extremes x presentation x partner x side; result compared bit-exactly with the harness's left fold and the whole one-rule program with the reference solver; partners include the equal constant, the neighbouring double / integer (1 ulp or 1 away), the same value in the other numeric type.",
             "Overflow and integer division by zero are discarded (outside the claim).", "DESIGN.md §4 C12"),
     "C13": ("metamorphic testing (function on the left vs on the right) plus reference value, over generated function/partner pairs",
-            "Exploration: arithmetic and join function terms paired with 10 kinds of partner, unified in both orders inside a rule; both orders must give the same answers and equal the reference's.",
+            "Exploration: arithmetic and join function terms paired with 10 kinds of partner, unified in both orders inside a rule; both orders must give the same answers and equal the reference's; one case in eight unifies the function with one of its own argument variables ($X = $X * 1).",
             "Function arguments are in the functions' documented domain.", "DESIGN.md §4 C13"),
     "C14": ("table oracle over generated operand pairs x 5 operators x 3 presentations, with per-cell coverage counters",
             "Exploration: operands over ints (extremes, neighbours of 2^53), floats (+-0.0, 2^53, +-1e300), atoms (unicode, spaces, prefixes), non-constants; literal or through variable chains; API, named text form, infix text form; outcome must equal the comparison table and at most one answer.",
@@ -61,7 +61,7 @@ CLAIMED.update({
             "Exploration: 1-4 inputs (lists with nested/empty/list-valued last elements, bound-variable elements, tails bound through chains, lists built element by element by a recursive copy/2 rule - a chain of same-named tail variables; atoms, numbers, complex terms; up to 9 inputs and 32 elements) and three kinds of Out; compared with the reference append via the reference solver.",
             "Inputs are closed lists / bound values (documented domain).", "DESIGN.md §4 C16"),
     "C17": ("differential testing of count/include/exclude/functor/join against reference functions on generated scenarios",
-            "Exploration: generated lists (bound tails, bound-variable elements), filter patterns with variables and $_, complex terms of arity 0-4 with exact/prefix*/variable functor arguments, word/punctuation sequences; every variable is exposed in the rule head so a leaked binding shows.",
+            "Exploration: generated lists (bound tails, bound-variable elements), filter patterns with variables and $_, complex terms of arity 0-13 with exact / prefix* (shorter, equal, longer than the functor) / variable functor arguments, literally or through a bound variable, word/punctuation sequences; every variable is exposed in the rule head so a leaked binding shows.",
             "Reference functions are written from the documentation.", "DESIGN.md §4 C17"),
     "C18": ("crash oracle over grammar-generated, mutated and random strings fed to all nine parser entry points (proptest-driven; about 1 million strings in the quick tier, 24 million in the thorough tier)",
             "Exploration: valid text, 1-3 character mutations of valid text and of the repository's test strings, random token soup, 10-70 levels of nested terms / lists / functions / parentheses; any panic is a violation identified by entry point and location, and so is a single input on which the parsers burn more than 20 s of CPU time (the property includes termination).",
